@@ -7,7 +7,8 @@
      - the regexps that strip a leading function name are anchored at the start and strip only
        inert text;
      - every keyword list of the file is free of the characters < > \ @ ( : of which every hostile
-       value needs one;
+       value needs one (C18_hostile_needs_danger, by reflection on the hostile language itself: a
+       value without these six characters is not hostile);
      - GetDefaultHandler is a lookup in the default table that falls back to BaseHandler, whose
        body is `return false` (shape recognised by the translator, which fails otherwise).
    Missing: the composition of these blocks by the handlers' own control flow (split on space /
@@ -17,7 +18,7 @@
    appended, prepended and glued at every position. *)
 From Coq Require Import List NArith Bool String.
 Import ListNotations.
-From BM Require Import Bytes Regex RegexSound RegexSem CssInert GenRegex GenCss C18Inst C18Inert0 C18Inert1 C18Inert2 C18Inert3 C18Whole C18Strip C18Kw.
+From BM Require Import Bytes Regex RegexSound RegexSem CssInert GenRegex GenCss C18Inst C18Inert0 C18Inert1 C18Inert2 C18Inert3 C18Whole C18Strip C18Kw C18Danger.
 Open Scope N_scope.
 
 Lemma hostile_parts_four : hostile_parts = [nth 0 hostile_parts Emp; nth 1 hostile_parts Emp; nth 2 hostile_parts Emp; nth 3 hostile_parts Emp].
@@ -53,11 +54,17 @@ Proof.
 Qed.
 
 (* without one of the danger characters a value cannot be hostile: every part of the hostile
-   language needs < > \ @ ( or : *)
+   language needs < > \ @ ( or :   (by reflection on Spec/CssInert.hostile) *)
+Theorem C18_hostile_needs_danger : forall s, matches hostile s = true -> matches has_danger s = true.
+Proof. exact hostile_needs_danger. Qed.
+Theorem C18_no_danger_not_hostile : forall s, Forall (fun c => cs_mem c danger_cset = false) s -> matches hostile s = false.
+Proof. exact no_danger_not_hostile. Qed.
+
 Theorem C18_unknown_property : get_default_handler_is_table_lookup_else_base = true /\ base_handler_is_return_false = true.
 Proof. split; reflexivity. Qed.
 
 Print Assumptions C18_regexps_inert.
+Print Assumptions C18_hostile_needs_danger.
 Print Assumptions C18_regexps_whole_value.
 Print Assumptions C18_strippers_anchored.
 Print Assumptions C18_keywords_inert.
